@@ -344,4 +344,95 @@ theorem tocQuery_mem {e : Env} {s : St} (hi : Inv e s) {start : Path} (hs : isIn
             simp only
             rw [if_pos ((hcont x _ hxi hd).mpr ⟨_, q, u, hd, hg, ha⟩)]
 
+/-! ### a stored object stays until it is deleted (metadata operations on the handle) -/
+
+/-- one `set` / `del` / `get` on a handle leaves every object of the directory in place, with its
+bytes, unless it is the `del` of that object's schema name -/
+theorem metaStep_keeps {e : Env} (he : WFEnv e) {s : St} (hi : Inv e s) {h : Handle} (hh : HOK s h) (o : MetaOp)
+    {q : SRef} {u : Nat} {tok : String}
+    (hobj : get? s.raw (h.baseDir ++ [.obj q u]) = some (.ds (.data tok)))
+    (hnd : ∀ n, o = .del n → n ≠ q.name) :
+    (metaStep e h o s).1.2.baseDir = h.baseDir ∧
+    get? (metaStep e h o s).2.raw (h.baseDir ++ [.obj q u]) = some (.ds (.data tok)) := by
+  have hgr : ∀ name, h.getRaw name none = alGet h.objs name := by
+    intro name; unfold Handle.getRaw; cases alGet h.objs name <;> rfl
+  obtain ⟨b, m, hb, hbase, -, -⟩ := hh.base
+  have hpath : h.baseDir ++ [.obj q u] = b ++ [.metaDir m, .obj q u] := by rw [hbase]; simp
+  have hobjAt : ObjAt s.raw (h.baseDir ++ [.obj q u]) q u := ⟨b, m, hb, hpath, by rw [hobj]; simp⟩
+  cases o with
+  | set name ver valid tok' =>
+    cases hg : alGet h.objs name with
+    | some st =>
+      have : metaStep e h (.set name ver valid tok') s = ((.raised .value, h), s) := by
+        simp [metaStep, Handle.set, hgr, hg]
+      rw [this]; exact ⟨rfl, hobj⟩
+    | none =>
+      cases hreq : e.requireSchema name ver with
+      | error err =>
+        have : metaStep e h (.set name ver valid tok') s = ((.raised err, h), s) := by
+          simp [metaStep, Handle.set, hgr, hg, hreq]
+        rw [this]; exact ⟨rfl, hobj⟩
+      | ok info =>
+        obtain ⟨hinfo, hname, -⟩ := requireSchema_ok hreq
+        cases valid with
+        | false =>
+          have : metaStep e h (.set name ver false tok') s = ((.raised .validation, h), s) := by
+            simp [metaStep, Handle.set, hgr, hg, hreq]
+          rw [this]; exact ⟨rfl, hobj⟩
+        | true =>
+          obtain ⟨s', h', hrun, -, -, hbase', -, hframe⟩ :=
+            setRaw_spec he hi hh hinfo tok' (by rw [hname]; exact hg) s.next rfl
+          have : metaStep e h (.set name ver true tok') s = ((.done, h'), s') := by
+            simp [metaStep, Handle.set, hgr, hg, hreq, hrun]
+          rw [this]
+          refine ⟨hbase', ?_⟩
+          rw [hframe _ (by rw [hpath]; exact objPath_head hb) (by
+              intro h'; have := congrArg List.length h'; simp at this) (by
+              intro h'
+              have := (List.append_inj' h' rfl).2
+              simp at this
+              exact absurd (hi.mok.bound _ q u hobjAt) (by rw [this.2]; exact lt_irrefl _))]
+          exact hobj
+  | del name =>
+    cases hg : alGet h.objs name with
+    | none =>
+      have : metaStep e h (.del name) s = ((.raised .key, h), s) := by
+        simp [metaStep, Handle.del, hgr, hg]
+      rw [this]; exact ⟨rfl, hobj⟩
+    | some st =>
+      obtain ⟨s', h', hrun, -, -, hbase', -, -, hobjs', hmono⟩ := delRaw_spec he hi hh hg
+      have : metaStep e h (.del name) s = ((.done, h'), s') := by
+        simp [metaStep, Handle.del, hgr, hg, hrun]
+      rw [this]
+      refine ⟨hbase', ?_⟩
+      obtain ⟨r', u', hn', rfl, -⟩ := (hh.objs name st).mp hg
+      have hne : h.baseDir ++ [Key.obj q u] ≠ h.baseDir ++ [Key.obj r' u'] := by
+        intro h'
+        have := (List.append_inj' h' rfl).2
+        simp at this
+        exact hnd name rfl (by rw [← hn', this.1])
+      have hstill : ObjAt s'.raw (h.baseDir ++ [.obj q u]) q u := (hobjs' _ _ _).mpr ⟨hobjAt, hne⟩
+      obtain ⟨_, _, _, _, hg'⟩ := hstill
+      rcases hmono (h.baseDir ++ [.obj q u]) (by rw [hpath]; exact objPath_head hb) with h0 | h0
+      · exact absurd h0 hg'
+      · rw [h0]; exact hobj
+  | get name ver =>
+    simp only [metaStep]
+    cases h.get e s name ver <;> exact ⟨rfl, hobj⟩
+
+/-- … and so does any sequence of operations on the kept handle that does not delete it -/
+theorem metaSeq_keeps {e : Env} (he : WFEnv e) : ∀ (ops : List MetaOp) {s : St} {h : Handle},
+    Inv e s → HOK s h → ∀ {q : SRef} {u : Nat} {tok : String},
+    get? s.raw (h.baseDir ++ [.obj q u]) = some (.ds (.data tok)) →
+    (∀ n, MetaOp.del n ∈ ops → n ≠ q.name) →
+    get? (metaSeqTrace e h ops s).2.raw (h.baseDir ++ [.obj q u]) = some (.ds (.data tok))
+  | [], s, h, _, _, q, u, tok, hobj, _ => by simpa [metaSeqTrace] using hobj
+  | o :: ops, s, h, hi, hh, q, u, tok, hobj, hnd => by
+    obtain ⟨hi1, hh1⟩ := metaStep_inv he hi hh o
+    obtain ⟨hb1, hobj1⟩ := metaStep_keeps he hi hh o hobj (fun n hn => hnd n (by simp [hn]))
+    simp only [metaSeqTrace]
+    have := metaSeq_keeps he ops hi1 hh1 (q := q) (u := u) (tok := tok) (by rw [hb1]; exact hobj1)
+      (fun n hn => hnd n (List.mem_cons_of_mem _ hn))
+    rw [hb1] at this; exact this
+
 end MetadorModel.Container
